@@ -126,27 +126,26 @@ Definition rq_req_marker (s : st) : option (list elem * st) :=
 Record rq_parsed := { pr_name : list N; pr_url : list N; pr_extras : list (list N); pr_spec : list N; pr_marker : option (list elem) }.
 Definition rq_not_blank (c : N) : bool := negb (is_wsb c).          (* URL = [^ \t]+ *)
 
+(* the common end of both branches of _parse_requirement_details:
+     if tokenizer.check("END", peek=True): return (url, specifier, None);  marker = _parse_requirement_marker(...) *)
+Definition rq_end_or_marker (url spec : list N) (s : st) : option ((list N * list N * option (list elem)) * st) :=
+  if rq_at_end s then Some ((url, spec, None), s)
+  else match rq_req_marker s with Some (m, s) => Some ((url, spec, Some m), s) | None => None end.
 (* _parse_requirement_details = AT URL (WS requirement_marker?)? | specifier WS? requirement_marker? ;  None = ParserSyntaxError *)
 Definition rq_details (s : st) : option ((list N * list N * option (list elem)) * st) :=
   if rq_is_hd 64 s then
     let s := skip_ws (rq_drop1 s) in
     let '(url, r) := MText.span rq_not_blank (rest s) in
-    match url with [] => None | _ =>
+    match url with [] => None | _ =>                         (* "Expected URL after @" *)
       let s := adv s url r in
       if rq_at_end s then Some ((url, [], None), s) else
       let '(w, r') := MText.span is_wsb (rest s) in
       match w with [] => None | _ =>                         (* "Expected whitespace after URL" *)
-        let s := adv s w r' in
-        if rq_at_end s then Some ((url, [], None), s) else
-        match rq_req_marker s with Some (m, s) => Some ((url, [], Some m), s) | None => None end
+        rq_end_or_marker url [] (adv s w r')
       end
     end
   else
-    match rq_specifier s with None => None | Some (spec, s) =>
-      let s := skip_ws s in
-      if rq_at_end s then Some (([], spec, None), s) else
-      match rq_req_marker s with Some (m, s) => Some (([], spec, Some m), s) | None => None end
-    end.
+    match rq_specifier s with None => None | Some (spec, s) => rq_end_or_marker [] spec (skip_ws s) end.
 (* _parse_requirement = WS? IDENTIFIER WS? extras WS? requirement_details END *)
 Definition rq_parse (src : list N) : option rq_parsed :=
   let s := skip_ws {| prev := None; rest := src |} in
